@@ -33,7 +33,9 @@ P = {'id': 'C08',
               'secure_concurrent_no_double_owner',
               'secure_concurrent_free_finds_its_chunk',
               'secure_counters_at_quiescence',
-              'secure_concurrent_reuse_refuted'],
+              'secure_concurrent_reuse_refuted',
+              'mempool_accounting_exact_at_quiescence',
+              'mempool_no_chunk_in_two_places'],
  'trusted': ['modelled (M+S): src/memory/lockfree_pool.rs allocate_from_fast_bin / deallocate_to_fast_bin / allocate_new_block and src/memory/five_level_pool.rs '
              'LockFreePool::alloc_from_fast_bin_lockfree / free_to_fast_bin_lockfree (one bin, generation-tagged head, link word inside the block, count, bump '
              'allocation: load + compare-exchange of next_offset in lockfree_pool.rs, one step under the mutex in five_level_pool.rs) as a sequentially consistent small-step machine with one step per shared access; '
